@@ -71,6 +71,21 @@ def rule_handoff(ctx, rep):
                       what="at the outermost level every path releases the fork mutex")
 
 
+def _natural_loop(f, ph):
+    """block ids of the natural loop(s) whose header holds the phi `ph`: the header plus every block that reaches one of its latches
+    (incoming blocks the header dominates) without passing through the header"""
+    hdr = ph.blk.id
+    out = {hdr}
+    work = [blk for v, blk in ph.d["inc"] if f.bdom(hdr, blk)]
+    while work:
+        b = work.pop()
+        if b in out:
+            continue
+        out.add(b)
+        work.extend(f.blocks[b].pred)
+    return out
+
+
 def _stays(f, t, succ, polls):
     """does the conditional edge t -> succ keep a wait loop going: from succ a poll() is reached again without first re-evaluating t's block"""
     if not polls:
@@ -288,6 +303,35 @@ def rule_child(ctx, rep, rid="C16.child", callrcu_only=False):
                             rep.check(fld == "registry_chunk.capacity", "C16.bp", "prune.bound-capacity", "every slot of the chunk is examined (bound = capacity)",
                                       "slot loop bound is %s, not the chunk capacity: allocated slots beyond it are never examined" % fld, [p.blocks[b].insts[-1].where()])
     pat.require(n >= 1, "prune: slot loop bound not recognised")
+    # ... and the slot loop is `for (i = 0; i < capacity; i++)`: starts at slot 0, stays while i < capacity, advances by one - a scan that starts at 1
+    # (or steps by 2) leaves stale reader slots of threads that do not exist in the child, and the child's grace periods wait for them forever
+    k = 0
+    for comp in p.sccs():
+        for b in comp:
+            for s_ in p.blocks[b].succ:
+                if s_ not in comp:
+                    continue
+                for a in ir.edge_atoms(p, b, s_):
+                    if a[0] in ("ult", "ule", "ugt", "uge", "ne", "slt", "sle") and a[1][0] == "phi" and a[2][0] == "load" and a[2][1].endswith("registry_chunk.capacity"):
+                        if s_ not in _natural_loop(p, p.insts[a[1][1]]):
+                            continue        # the edge leaves the slot loop (and stays in the enclosing chunk loop)
+                        k += 1
+                        where = [p.blocks[b].insts[-1].where()]
+                        rep.check(a[0] in ("ult", "slt", "ne"), "C16.bp", "prune.slots.stay-while-below-capacity", "the slot loop continues while index < capacity",
+                                  "the slot loop continues while index %s capacity: %s" % (a[0], "it reads one slot past the chunk" if a[0] in ("ule", "sle") else "it does not visit the chunk's slots"), where)
+                        ph = p.insts[a[1][1]]
+                        inits = [ir.const_of(p, v) for v, blk in ph.d["inc"] if not p.bdom(ph.blk.id, blk)]       # entered from outside the (inner) loop
+                        steps = [ir.expr(p, v, 3) for v, blk in ph.d["inc"] if p.bdom(ph.blk.id, blk)]          # back edges
+                        rep.check(inits == [0], "C16.bp", "prune.slots.from-0", "the slot loop starts at slot 0", "the slot loop starts at %s: earlier slots are never pruned - a stale reader of a thread that does not exist in the child "
+                                  "blocks the child's synchronize_rcu() forever" % inits, where)
+                        okstep = all(e[0] == "bin" and e[1] == "add" and e[3] == ("c", 1) and e[2] == ("phi", ph.id) for e in steps) and bool(steps)
+                        if okstep:
+                            rep.ok("C16.bp", "prune.slots.step-1", "the slot index advances by one")
+                        elif all(e[0] == "bin" and e[1] in ("add", "sub") and e[3][0] == "c" and e[2] == ("phi", ph.id) for e in steps) and steps:
+                            rep.bad("C16.bp", "prune.slots.step-1", "the slot index advances by %s: slots are skipped (or the scan runs backwards out of the chunk)" % [ir.expr_str(e) for e in steps], where)
+                        else:
+                            rep.unk("C16.bp", "prune.slots.step-1", "slot index update not recognised: %s" % [ir.expr_str(e) for e in steps])
+    pat.require(k >= 1, "prune: slot loop shape (index phi compared with capacity) not recognised")
     c = ctx.fn("bp", "urcu_bp_after_fork_child")
     pr = [i for i in c.all_insts() if pat.from_fn(i, "urcu_bp_prune_registry")]
     ul = pat.mutex_calls(c, "pthread_mutex_unlock", "rcu_registry_lock")
